@@ -9,7 +9,7 @@ FATAL = ['BrokenPipeError', 'ConnectionResetError', 'TimeoutError', 'OSError']
 
 CONN_FIELDS = {'buffer': ('list', 'mv'), '_num_buffer': 'int', 'closed': 'bool', '_reusable': 'bool', 'tag': 'str',
                '_conn': ('opt', ('opaque', 'Socket'))}
-CONN_GHOST = {'wire': 'bytes', 'Q': 'bytes', 'dead': 'bool'}
+CONN_GHOST = {'wire': 'bytes', 'dead': 'bool', 'rx': 'bytes'}
 CONN_INV = [('num', 'self._num_buffer == len(self.buffer)')]
 
 
@@ -36,8 +36,9 @@ def add_connections(reg):
                              [(e, ['self.dead']) for e in FATAL]),
                  note='E-SEND')
     reg.contract('proxy/core/connection/connection.py', 'TcpConnection.recv', params={'buffer_size': 'int'},
-                 result=('opt', 'mv'), assumed=True, self_cls='TcpConnection', modifies=[], raise_modifies=['self.dead'],
-                 ensures=[('nonempty', 'isnone(result) or len(result) > 0')],
+                 result=('opt', 'mv'), assumed=True, self_cls='TcpConnection', modifies=['self.rx'], raise_modifies=['self.dead'],
+                 ensures=[('nonempty', 'isnone(result) or len(result) > 0'),
+                          ('rx', "self.rx == old(self.rx) + (b'' if isnone(result) else result)")],
                  raises=dict([(e, ['self.dead == old(self.dead)']) for e in ['ssl.SSLWantReadError', 'BlockingIOError']] +
                              [(e, ['self.dead']) for e in FATAL]),
                  note='E-RECV: None at EOF, else the next 1..k bytes of the peer stream')
@@ -61,15 +62,15 @@ def add_connections(reg):
     reg.contract('proxy/core/connection/connection.py', 'TcpConnection.has_buffer', self_cls='TcpConnection',
                  inv=CONN_INV, modifies=[], result='bool', ensures=[('iff', 'result == (len(self.buffer) != 0)')])
     reg.contract('proxy/core/connection/connection.py', 'TcpConnection.queue', params={'mv': 'mv'},
-                 self_cls='TcpConnection', inv=CONN_INV, modifies=['self.buffer', 'self._num_buffer', 'self.Q'],
-                 ensures=[('append', 'self.buffer == old(self.buffer) + [mv]'), ('Q', 'self.Q == old(self.Q) + mv')])
+                 self_cls='TcpConnection', inv=CONN_INV, modifies=['self.buffer', 'self._num_buffer'],
+                 ensures=[('append', 'self.buffer == old(self.buffer) + [mv]')])
 
 
 FLAGS = {'max_sendbuf_size': 'int', 'client_recvbuf_size': 'int', 'server_recvbuf_size': 'int', 'timeout': 'int',
          'threadless': 'bool', 'keyfile': ('opt', 'str'), 'certfile': ('opt', 'str'),
          'enable_proxy_protocol': 'bool'}
 
-PLUGIN_MOD = ['self.client.buffer', 'self.client._num_buffer', 'self.client.Q']
+PLUGIN_MOD = ['self.client.buffer', 'self.client._num_buffer']
 PLUGIN_POST = [('num', 'self.client._num_buffer == len(self.client.buffer)'),
                ('appends-only', 'self.client.buffer[:len(old(self.client.buffer))] == old(self.client.buffer)')]
 
